@@ -385,6 +385,7 @@ class YAMLPath:
         segment_type: Optional[PathSegmentTypes] = None
         demarc_stack: List[str] = []
         escape_next: bool = False
+        term_demarcated: bool = False
         search_inverted: bool = False
         search_method: Optional[PathSearchMethods] = None
         search_attr: str = ""
@@ -508,6 +509,10 @@ class YAMLPath:
                             continue
                     else:
                         # Embed a nested, demarcated component
+                        if not segment_id and search_method is not None:
+                            # A search term which opens with a genuine (not
+                            # an escaped) demarcation mark
+                            term_demarcated = True
                         demarc_stack.append(char)
                         demarc_count += 1
                 else:
@@ -761,10 +766,13 @@ class YAMLPath:
                         and search_method is not None
                 ):
                     # Undemarcate the search term, if it is so
-                    if segment_id and segment_id[0] in ["'", '"']:
+                    if (term_demarcated
+                        and segment_id and segment_id[0] in ["'", '"']
+                    ):
                         leading_mark = segment_id[0]
                         if segment_id[-1] == leading_mark:
                             segment_id = segment_id[1:-1]
+                    term_demarcated = False
 
                     path_segments.append((
                         segment_type,
